@@ -259,6 +259,49 @@ var c17KnownF10 = []string{
 	"pedist 3be064b2cdab32bd 3ff0000000000000 3d21372cece66e04 3fefffffffffc5f8 0000000000000000 bebe78c49e48c0a7 bff0000000000000 8000000000000000 0000000000000000 4000000000000000,3fffffffffffffff,4000000000000001,0000000000000000,4010000000000000,7ff0000000000000,bff0000000000000,4000000000000000,3fe6e26134b39e90,4000000000000000,3fffffffffffffff,4000000000000001",
 }
 
+// c17LongPool: outputs of r3.Vector.Normalize that are 2.75 .. 3.2 * 2^-53 TOO LONG (found by scanning 6e7 random vectors; each has
+// frequency about 1e-5, docs/findings/c17err_maxpointerror/search).  KNOWN finding D57: for two such points the error of
+// ChordAngleBetweenPoints / the vertex branch of UpdateMinDistance exceeds the documented ChordAngle.MaxPointError (4.5 dblEpsilon d),
+// whose derivation budgets 2 dblEpsilon for the normalisation of both points together.  Every c17 shard emits all ordered pairs with a
+// degenerate edge and with an edge leading away from the query (clauses dist-err-maxpointerror / dist-endpoint-maxpointerror fire on 5 pairs).
+var c17LongPool = [][3]uint64{
+	{0xbec1ab96defdb355, 0x3feffff10d897f1f, 0x3f6eeddc74bdf6b4},
+	{0x3ea5a1787076c29b, 0x3feffffdcd7caacb, 0x3f57b7a4243e998f},
+	{0x3eb38af5deaa5141, 0x3fefffff72a2393c, 0x3f47c78c1467cffd},
+	{0xbfefffffea15a880, 0xbf32b9bd23f5385a, 0x3e9511ab4536ebad},
+	{0xbfefffffb90b7c4a, 0x3f40d8d316beea7a, 0x3e9377ee4dc827f6},
+	{0xbfefffffffb553f1, 0xbf0143f385c582b8, 0x3eb8a6483c779d23},
+	{0xbfefffffc4ccfc3c, 0xbf3ec6ab77f13104, 0x3ec35c1928e7fa51},
+	{0xbf805ab3fb5fa385, 0x3fefd8cb786b152b, 0x3fb8ee955e43c3bc},
+	{0x3fefffff4c13c7db, 0x3f4ad3b3f7d6057c, 0x3ec1ab6dd38323cb},
+}
+
+func c17EmitLongPairs(g *G) {
+	pt := func(b [3]uint64) s2.Point {
+		return s2.Point{Vector: r3.Vector{X: math.Float64frombits(b[0]), Y: math.Float64frombits(b[1]), Z: math.Float64frombits(b[2])}}
+	}
+	for i, bx := range c17LongPool {
+		for j, ba := range c17LongPool {
+			if i == j {
+				continue
+			}
+			x, a := pt(bx), pt(ba)
+			ms := func(b s2.Point) string {
+				d, _ := s2.VerifUpdateMinDistance(x, a, b, 0, true)
+				dmax, _ := s2.UpdateMaxDistance(x, a, b, s1.NegativeChordAngle)
+				return c17FsTok(c17ChordList(d, dmax, 2))
+			}
+			g.emit("pedist", append(c17PtToks(x, a, a), ms(a))...)
+			// an edge that leads away from x: b = a displaced by 0.01 against the direction of x
+			away := a.Sub(x.Sub(a.Mul(x.Dot(a.Vector))).Normalize().Mul(0.01))
+			b := s2.Point{Vector: away.Normalize()}
+			if c17ValidPt(b) && c17ValidEdge(a, b) {
+				g.emit("pedist", append(c17PtToks(x, a, b), ms(b))...)
+			}
+		}
+	}
+}
+
 // c17EmitKnown re-executes fixed op lines (op + args) through their replayers.
 func c17EmitKnown(g *G, ls []string) {
 	for _, l := range ls {
@@ -1432,6 +1475,9 @@ func genC17(g *G) {
 	g.emit("c17const")
 	c17EmitKnown(g, c17KnownF7)
 	c17EmitKnown(g, c17KnownF10)
+	if g.shardK == 0 {
+		c17EmitLongPairs(g)
+	}
 	guard := 0
 	for g.count < g.n+1 && guard < 20*g.n+100 {
 		guard++
